@@ -64,6 +64,53 @@ PROPS['C07'] = dict(
     technique='contract-based deductive verification + data-race-freedom obligations (two-iteration non-interference) discharged by z3',
 )
 
+def _sandwich_bridges(run):
+    """z3 obligations that connect the specification theory (specs/dtw.py, specs/bounds.py) to the hypotheses of the Lean lemmas
+    lb_le_W / W_le_diag / W_le_padRow / W_le_padCol (specs/lean/Sandwich.lean)."""
+    import z3
+    from dvc.state import Obligation, CannotBind
+    from dvc.vals import Val, vlt, vinf, vzero, vadd, vsub, vmul, vabs, order_axioms, arith_axioms
+    from dvc import leancheck
+    from specs.dtw import band, nonneg_axioms
+    from specs.bounds import idist_term, JS, JE, float_gap_axioms
+    st = leancheck.ensure(['Sandwich.lean'])
+    run.evidence_extra['lean'] = st
+    if not all(v['accepted'] for v in st.values()):
+        raise CannotBind('a Lean lemma file was rejected: %s' % st)
+    i, j, r, c, w, k = z3.Ints('i j r c w k')
+    x, y, L, U, d, acc, pen = z3.Consts('x y L U d acc pen', Val)
+    mt = z3.Int('metric')
+    le = lambda a, b: z3.Not(vlt(b, a))       # noqa: E731
+    obs = []
+
+    def ob(name, hyps, goal, note, ax=()):
+        obs.append(Obligation('bridge::' + name, 'bridge', hyps, goal, 'lemma:C09-bridge', props=('C09',), note=note, axioms=list(ax)))
+    # LBHyp.env, part 1: the envelope window of LB_Keogh (specification LBsum: columns JS(i) .. JE(i)-1) is the band of row i
+    ob('band-is-envelope-window', [w >= 1, r >= 1, c >= 1, 0 <= i, i < r],
+       band(i, j, r, c, w) == z3.And(JS(i, r, c, w) <= j, j < JE(i, r, c, w)),
+       'every allowed cell of row i lies in the window LB_Keogh takes the envelope over, and vice versa')
+    # LBHyp.env, part 2: a value inside the envelope is at least as far from x as the envelope edge x lies beyond
+    e = z3.If(vlt(U, x), idist_term(mt, x, U), z3.If(vlt(x, L), idist_term(mt, x, L), vzero))
+    ob('envelope-bounds-cell', [z3.Or(mt == 0, mt == 1), le(L, y), le(y, U)], le(e, idist_term(mt, x, y)),
+       'e_i <= d(i, j): the term LB_Keogh adds for row i is at most the point distance to any value between the envelopes',
+       order_axioms() + nonneg_axioms() + float_gap_axioms())
+    # LBHyp.d_nonneg, add_infl, pen_infl
+    ob('cost-nonneg', [z3.Or(mt == 0, mt == 1)], le(vzero, idist_term(mt, x, y)), 'point distances are not negative',
+       order_axioms() + nonneg_axioms())
+    ob('add-inflationary', [le(vzero, d)], z3.And(le(acc, vadd(d, acc)), le(acc, vadd(acc, d))),
+       'adding a non-negative cost (or penalty) does not decrease the accumulated value', order_axioms() + nonneg_axioms())
+    # Mono / add_mono_left
+    ob('add-monotone', [le(x, y)], z3.And(le(vadd(d, x), vadd(d, y)), le(vadd(x, d), vadd(y, d))),
+       'rounded addition is monotone in either argument', order_axioms() + arith_axioms())
+    # the upper-bound paths stay inside the band: the diagonal, then the last row (l1 < l2) or the last column (l1 > l2)
+    ob('diagonal-in-band', [w >= 1, 0 <= k, k < r, k < c], band(k, k, r, c, w), 'every diagonal cell is in the band for any window >= 1')
+    ob('last-row-in-band', [w >= 1, r >= 1, r <= c, r - 1 <= j, j < c], band(r - 1, j, r, c, w),
+       'series 1 shorter: the cells (l1-1, j), j >= l1-1, that the padded Euclidean sum walks through are in the band')
+    ob('last-column-in-band', [w >= 1, c >= 1, c <= r, c - 1 <= i, i < r], band(i, c - 1, r, c, w),
+       'series 2 shorter: the cells (i, l2-1), i >= l2-1, are in the band')
+    return obs
+
+
 PROPS['C09'] = dict(
     modules=['contracts.ed_c', 'contracts.bounds_c', 'contracts.bounds_py'],
     contracts=['dd_ed.c::euclidean_distance', 'dd_ed.c::euclidean_distance_euclidean',
@@ -72,15 +119,28 @@ PROPS['C09'] = dict(
                'dd_dtw.c::ub_euclidean_ndim_euclidean', 'dd_dtw.c::lb_keogh', 'dd_dtw.c::lb_keogh_euclidean',
                'ed.distance', 'dtw.ub_euclidean', 'dtw.lb_keogh', 'dtw.lb_keogh#euclid'],
     lemmas=[],
+    extra_obligations=_sandwich_bridges,
     level='proof',
     level_text='Code = spec, unbounded: every Euclidean-bound routine (C, uni- and multivariate, both inner distances) '
                'returns exactly the padded Euclidean sum of the property statement, in the order the loops add it '
                '(bit-exact for IEEE doubles at level U).',
     level_note='Trusted: dvc C semantics (A2), libm sqrt/fabs as functions (A3), pow(d,2)==d*d (A3), solvers (A7). '
-               'The sandwich inequalities LB <= DTW <= ED are lemmas over the spec (see DESIGN, not yet machine-checked).',
-    trusted_base=['A2: C semantics as encoded by dvc', 'A3: libm', A7],
-    assumptions=['A2', 'A3 (libm)', A7],
-    not_decided=['LB_Keogh <= DTW and DTW <= ED as inequalities over the specification (Lean lemmas L4/L5 pending)'],
+               'The sandwich LB_Keogh <= DTW <= Euclidean bound is machine-checked over the specification: Lean lemmas '
+               'lb_le_W, W_le_diag, W_le_padRow, W_le_padCol (specs/lean/Sandwich.lean) over any linear order with a monotone, '
+               'inflationary add -- no associativity, so they hold for rounded double addition in the order the code adds -- '
+               'and eight z3 bridge obligations that discharge their hypotheses from the specification theory (the envelope '
+               'window is the band; an in-envelope value is at least the envelope term away; costs non-negative; rounded '
+               'addition monotone and inflationary; diagonal / last row / last column inside the band). IEEE facts assumed '
+               '(A3, listed in specs/bounds.py float_gap_axioms, specs/dtw.py nonneg_axioms, dvc/vals.py arith_axioms): '
+               'rounded - monotone/antitone, x - y >= 0 for y <= x, squaring monotone on non-negatives, |v| = v for v >= 0, '
+               'sign symmetry, + monotone, x <= x + d for d >= 0.',
+    trusted_base=['A2: C semantics as encoded by dvc', 'A3: libm and the listed IEEE facts', A7, 'Lean 4 kernel + Mathlib'],
+    assumptions=['A2', 'A3 (libm, IEEE monotonicity facts)', A7],
+    not_decided=['the correspondence between the Lean accumulators (lb, diagCost, padRowCost) and the specification sums LBsum / '
+                 'EDsum is by reading: both add the same terms in the same order, the Lean ones with the term first (rounded + is '
+                 'commutative) and adding 0 where LB_Keogh skips a row (x + 0 == x)',
+                 'valid only as the property says: no max_step, and no penalty unless the lengths are equal (pen = identity on the '
+                 'padded part); result_fn (sqrt) is monotone'],
 )
 
 PROPS['C01'] = dict(
